@@ -902,9 +902,18 @@ def run(ctx: Ctx):
         want_n = expect_certified_n(sc, res["protected"])
         if chunk[-1].split()[0] != want_n:
             certn_bad.append(f"{name} {sc['family']}/{sc['block']}: {chunk[-1]}, expected {want_n}")
-        ctx.count("net:hypothesis-free(certifiedN)" if chunk[-1] == "certifiedN" else
-                  "net:certified-with-FwSecondOK(certifiedN-fw2)" if chunk[-1] == "certifiedN-fw2" else
-                  "net:certified-with-software-hypotheses-only")
+        # which theorem covers the scenario, and what it still assumes
+        roles = set(roles_for(sc).values())
+        if chunk[-1] == "certifiedN":
+            ctx.count("net:theorem:C06_certifiedN_unchanged:no-hypothesis")
+        elif ok and "ifaceDown" not in roles and "routerDeny" not in roles:
+            ctx.count("net:theorem:C06_certified_unchanged:no-hypothesis(arbitrary interior handlers)")
+        elif ok and "routerDeny" not in roles:
+            ctx.count("net:theorem:C06_certified_unchanged_confined:software-set-of-the-ifaceDown-element-confined")
+        elif chunk[-1] == "certifiedN-fw2":
+            ctx.count("net:theorem:C06_certifiedN_unchanged:FwSecondOK")
+        else:
+            ctx.count("net:theorem:C06_certifiedC_unchanged:closure+software-hypotheses")
         if sc["block"] in CERTIFIABLE and not ok:
             cert_bad.append(f"{name} {sc['family']}/{sc['block']}: {chunk[-3]}")
         if sc["block"] not in CERTIFIABLE and ok:
